@@ -53,10 +53,10 @@ fn c01_noisy() -> c01::C01 {
     c01::C01 { family: "c01_net_noisy_prelude", skew: true, noisy: true, quick_runs: 4000, thorough_runs: 100_000 }
 }
 fn c02_free() -> c02::C02 {
-    c02::C02 { family: "c02_closed_loop_fault_free", faults: false, p2p: false, switch: false, quick_runs: 8000, thorough_runs: 200_000 }
+    c02::C02 { family: "c02_closed_loop_fault_free", faults: false, p2p: false, switch: false, servo_stress: false, quick_runs: 8000, thorough_runs: 200_000 }
 }
 fn c02_faults() -> c02::C02 {
-    c02::C02 { family: "c02_closed_loop_faults_then_quiet", faults: true, p2p: false, switch: false, quick_runs: 3000, thorough_runs: 100_000 }
+    c02::C02 { family: "c02_closed_loop_faults_then_quiet", faults: true, p2p: false, switch: false, servo_stress: false, quick_runs: 3000, thorough_runs: 100_000 }
 }
 
 pub fn all() -> Vec<Box<dyn Check>> {
@@ -64,11 +64,15 @@ pub fn all() -> Vec<Box<dyn Check>> {
     v.push(Box::new(c01::C01 { family: "c01_net_exact_timers", skew: false, noisy: false, quick_runs: 20_000, thorough_runs: 400_000 }));
     v.push(Box::new(c01::C01 { family: "c01_net_skewed_timers", skew: true, noisy: false, quick_runs: 12_000, thorough_runs: 300_000 }));
     v.push(Box::new(c01::C01 { family: "c01_net_noisy_prelude", skew: true, noisy: true, quick_runs: 8000, thorough_runs: 200_000 }));
-    v.push(Box::new(c02::C02 { family: "c02_closed_loop_fault_free", faults: false, p2p: false, switch: false, quick_runs: 8000, thorough_runs: 200_000 }));
-    v.push(Box::new(c02::C02 { family: "c02_closed_loop_faults_then_quiet", faults: true, p2p: false, switch: false, quick_runs: 3000, thorough_runs: 100_000 }));
-    v.push(Box::new(c02::C02 { family: "c02_closed_loop_peer_delay", faults: false, p2p: true, switch: false, quick_runs: 3000, thorough_runs: 100_000 }));
-    v.push(Box::new(c02::C02 { family: "c02_closed_loop_master_change", faults: false, p2p: false, switch: true, quick_runs: 2500, thorough_runs: 80_000 }));
+    v.push(Box::new(c02::C02 { family: "c02_closed_loop_fault_free", faults: false, p2p: false, switch: false, servo_stress: false, quick_runs: 8000, thorough_runs: 200_000 }));
+    v.push(Box::new(c02::C02 { family: "c02_closed_loop_faults_then_quiet", faults: true, p2p: false, switch: false, servo_stress: false, quick_runs: 3000, thorough_runs: 100_000 }));
+    v.push(Box::new(c02::C02 { family: "c02_closed_loop_peer_delay", faults: false, p2p: true, switch: false, servo_stress: false, quick_runs: 3000, thorough_runs: 100_000 }));
+    v.push(Box::new(c02::C02 { family: "c02_closed_loop_master_change", faults: false, p2p: false, switch: true, servo_stress: false, quick_runs: 2500, thorough_runs: 80_000 }));
     v.push(Box::new(c03::C03));
+    // the servos under hostile and long measurement histories, in both build profiles of C03
+    v.push(Box::new(Reuse { property: "C03", family: "c03_closed_loop_servo_configs_and_wander", inner: Box::new(c02::C02 { family: "c02_servo_stress", faults: false, p2p: false, switch: false, servo_stress: true, quick_runs: 600, thorough_runs: 20_000 }), quick_runs: 600, thorough_runs: 20_000 }));
+    v.push(Box::new(Reuse { property: "C13", family: "c13_monitor_on_servo_configs_and_wander", inner: Box::new(c02::C02 { family: "c02_servo_stress", faults: false, p2p: false, switch: false, servo_stress: true, quick_runs: 600, thorough_runs: 20_000 }), quick_runs: 600, thorough_runs: 20_000 }));
+    v.push(Box::new(Reuse { property: "C03", family: "c03_filter_histories", inner: Box::new(c13::C13Direct), quick_runs: 40_000, thorough_runs: 1_000_000 }));
     v.push(Box::new(c05::C05));
     v.push(Box::new(c06::C06));
     v.push(Box::new(c07::C07));
@@ -83,7 +87,7 @@ pub fn all() -> Vec<Box<dyn Check>> {
     v.push(Box::new(c18::C18));
     v.push(Box::new(Reuse { property: "C14", family: "c14_monitor_on_random_history", inner: Box::new(c08::C08Driver), quick_runs: 12000, thorough_runs: 180000 }));
     v.push(Box::new(Reuse { property: "C13", family: "c13_monitor_on_closed_loop_faults", inner: Box::new(c02_faults()), quick_runs: 3200, thorough_runs: 90000 }));
-    v.push(Box::new(Reuse { property: "C13", family: "c13_monitor_on_closed_loop_peer_delay", inner: Box::new(c02::C02 { family: "c02_closed_loop_peer_delay", faults: false, p2p: true, switch: false, quick_runs: 1600, thorough_runs: 40000 }), quick_runs: 1600, thorough_runs: 40000 }));
+    v.push(Box::new(Reuse { property: "C13", family: "c13_monitor_on_closed_loop_peer_delay", inner: Box::new(c02::C02 { family: "c02_closed_loop_peer_delay", faults: false, p2p: true, switch: false, servo_stress: false, quick_runs: 1600, thorough_runs: 40000 }), quick_runs: 1600, thorough_runs: 40000 }));
     v.push(Box::new(Reuse { property: "C13", family: "c13_monitor_on_random_history", inner: Box::new(c08::C08Driver), quick_runs: 12000, thorough_runs: 180000 }));
     v.push(Box::new(Reuse { property: "C13", family: "c13_monitor_on_noisy_networks", inner: Box::new(c01_noisy()), quick_runs: 2400, thorough_runs: 60000 }));
     v.push(Box::new(Reuse { property: "C08", family: "c08_monitor_on_networks", inner: Box::new(c01_noisy()), quick_runs: 3200, thorough_runs: 90000 }));
